@@ -23,7 +23,9 @@ def parseEv (e : String) : Option Ev :=
   let f := ((e.drop 1).toString).splitOn ":"
   match e.front, f with
   | 'H', [id, es, k] => do pure (.H (← id.toNat?) (← parseBool es) (← parseKind k))
-  | 'D', [id, n, es] => do pure (.D (← id.toNat?) (← n.toNat?) (← parseBool es))
+  | 'D', [id, n, es] => do pure (.D (← id.toNat?) (← n.toNat?) (← parseBool es) 0)
+  | 'D', [id, n, es, pad] => do pure (.D (← id.toNat?) (← n.toNat?) (← parseBool es) ((← pad.toNat?) + 1))
+  | 'B', [id, n] => do pure (.B (← id.toNat?) (← n.toNat?))
   | 'R', [id] => id.toNat?.map .R
   | 'F', [id] => id.toNat?.map .F
   | 'P', [id] => id.toNat?.map .P
@@ -51,7 +53,7 @@ def renderSite : PanicSite → String
 def renderOut : Out → String
   | .ok => "ok" | .rst c => "rst:" ++ toString c | .ga c => "ga:" ++ toString c | .close => "close"
   | .held => "held" | .skip => "skip" | .busy => "busy" | .nohandler => "nohandler" | .idle => "idle"
-  | .queued => "queued" | .gone => "gone" | .sfail => "fail"
+  | .queued => "queued" | .gone => "gone" | .sfail => "fail" | .blocked => "blocked"
   | .panic s => "panic:" ++ renderSite s
 
 def insertNat (k : Nat) : List Nat → List Nat
@@ -65,6 +67,8 @@ def renderState (c : Conn) (flows : Bool := true) : String :=
       let s := c.streams id
       toString id ++ (if s.phase == .opn then "o" else "r") ++ (if s.trailer then "t" else "")
         ++ (if flows then "(" ++ toString s.flow ++ ")" else ""))
+    ++ ":q" ++ ",".intercalate (((c.ids.foldr insertNat []).filter fun id => !(c.streams id).q.isEmpty).map fun id =>
+        toString id ++ "=" ++ toString (c.streams id).q.length)
 
 def render (r : Conn × List Out) (halfUpdated : Bool) : String :=
   let o := ",".intercalate (r.2.map renderOut)
@@ -82,6 +86,7 @@ structure CView where
   maxId : Nat := 0
   nOpen : Nat := 0                        -- streams open or half-closed(remote) from the server's view
   held : Option Nat := none
+  pending : Option Nat := none            -- stream whose final DATA waits for send window (goes in flight later)
   ga : Option Nat := none                 -- the server announced GOAWAY with this code
   gone : Bool := false                    -- a framing-level connection error ended the frame reader
   acks : Nat := 1                         -- SETTINGS of the server not yet acknowledged
@@ -94,7 +99,7 @@ def CView.set (v : CView) (id : Nat) (p : CPh) : CView :=
 
 /-- framing-level connection errors (the frame never reaches processFrame; the reader stops) -/
 def framingErr : Ev → Bool
-  | .H id _ _ => id == 0 | .K id _ => id == 0 | .D id _ _ => id == 0 | .R id => id == 0
+  | .H id _ _ => id == 0 | .K id _ => id == 0 | .D id _ _ _ => id == 0 | .R id => id == 0
   | .G id _ => id != 0 | .U id inc => id == 0 && inc == 0 | .Y id _ _ => id == 0
   | .C _ => true | .X _ => true | .S false (some v) => v > 2147483647 | _ => false
 
@@ -117,7 +122,7 @@ def expect0 (adv : Nat) (v : CView) (e : Ev) : List String :=
   match e with
   | .H id es k => expectH adv v id es k
   | .K id es => expectH adv v id es .ok
-  | .D id n _ =>
+  | .D id n _ _ =>
     match v.ph id with
       | .opn =>
         if v.tr id then ["rst:5", "rst:1"]
@@ -129,6 +134,7 @@ def expect0 (adv : Nat) (v : CView) (e : Ev) : List String :=
   | .R id => if v.ph id == .idle && id > v.maxId then ["ga:1"] else ["ok"]
   | .F _ => ["held", "skip", "busy", "nohandler", "queued"]
   | .P _ => ["held", "skip", "busy", "nohandler", "queued"]
+  | .B _ _ => ["held", "skip", "busy", "nohandler", "queued", "blocked"]
   | .W => ["ok", "idle", "rst:0"]
   | .S ack iws =>
     if ack then (if v.acks == 0 then ["ga:1"] else ["ok"])
@@ -156,7 +162,7 @@ def expect (adv : Nat) (v : CView) (e : Ev) : List String :=
       | .H _ _ _ => if framingErr e then ["ok"] else ["ok"]
       | .K _ _ => ["ok"]
       | .Q => ["ok"]
-      | .D id _ _ => if !framingErr e && (code != 0 || id > v.maxId) then ["ok"]
+      | .D id _ _ _ => if !framingErr e && (code != 0 || id > v.maxId) then ["ok"]
                      else base.map fun o => if o.startsWith "ga:" then "ok" else o
       | .S _ _ => base.map fun o => if o == "ga:3" then "fail" else if o.startsWith "ga:" then "ok" else o
       | _ => base.map fun o => if o.startsWith "ga:" then "ok" else o
@@ -186,7 +192,7 @@ def advance (v : CView) (e : Ev) (out : String) : CView :=
       let v := if v.ph id == .idle && id > v.maxId && id % 2 == 1 then { v with maxId := id } else v
       v.set id .closed
     else v
-  | .D id n es =>
+  | .D id n es _ =>
     if out == "ok" && (v.ph id == .opn) && !(match v.ga with | some code => code != 0 || id > v.maxId | none => false) then
       let v := { v with got := fun j => if j = id then v.got id + n else v.got j }
       if es then v.set id .hcr else v
@@ -195,16 +201,21 @@ def advance (v : CView) (e : Ev) (out : String) : CView :=
   | .R id => if out == "ok" && v.ph id != .idle then v.set id .closed else v
   | .F id => if out == "held" then { v with held := some id } else v
   | .P id => if out == "held" then { v with held := some id } else v
+  | .B id _ => if out == "held" then { v with held := some id } else if out == "blocked" then { v with pending := some id } else v
   | .W =>
     match v.held with
     | some id => ({ v with held := none }).set id .closed
-    | none => v
+    | none =>
+      if out == "idle" then v
+      else match v.pending with
+        | some id => ({ v with pending := none }).set id .closed
+        | none => v
   | .S ack _ => if ack && v.acks > 0 then { v with acks := v.acks - 1 } else v
   | .U id _ => if out.startsWith "rst" && v.ph id != .idle then v.set id .closed else v
   | _ => v
 
 def evName : Ev → String
-  | .H .. => "H" | .D .. => "D" | .R _ => "R" | .F _ => "F" | .P _ => "P" | .W => "W" | .S .. => "S" | .G .. => "G"
+  | .H .. => "H" | .D .. => "D" | .R _ => "R" | .F _ => "F" | .P _ => "P" | .B .. => "B" | .W => "W" | .S .. => "S" | .G .. => "G"
   | .U .. => "U" | .Y .. => "Y" | .C _ => "C" | .X _ => "X" | .K .. => "K" | .A => "A" | .Q => "Q"
 
 def classify (adv : Nat) (v : CView) (e : Ev) (out : String) : String :=
@@ -215,7 +226,7 @@ def classify (adv : Nat) (v : CView) (e : Ev) (out : String) : String :=
       | .H id _ _ => id % 2 == 1 && v.ph id == .idle && id > v.maxId && v.nOpen + 1 > adv
       | .K id _ => id % 2 == 1 && v.ph id == .idle && id > v.maxId && v.nOpen + 1 > adv
       | _ => false
-    let dataIdle := match e with | .D id _ _ => v.ph id == .idle && id > v.maxId && id % 2 == 1 | _ => false
+    let dataIdle := match e with | .D id _ _ _ => v.ph id == .idle && id > v.maxId && id % 2 == 1 | _ => false
     let wuIdle := match e with | .U id inc => inc != 0 && id != 0 && v.ph id == .idle && id > v.maxId | _ => false
     if overLimit && out == "close" then "limit-closes-connection"
     else if dataIdle && out == "rst:5" then "data-idle-stream-error"
@@ -259,6 +270,8 @@ def run (op impl : String) : Ans :=
       ++ (if has (fun o => o == .rst 0) then ["rst-noerror"] else [])
       ++ (if evs.any (fun e => match e with | .P _ => true | _ => false) then ["has-P"] else [])
       ++ (if has (fun o => o == .queued) then ["queued"] else [])
+      ++ (if has (fun o => o == .blocked) then ["blocked"] else [])
+      ++ (if evs.any (fun e => match e with | .D _ _ _ p => p > 0 | _ => false) then ["padded"] else [])
       ++ (if has (fun o => o == .gone) then ["reader-gone"] else [])
       ++ (if has (fun o => o == .ga 0) then ["graceful"] else [])
       ++ (if has (fun o => o == .ga 3 || o == .rst 3) then ["flow-err"] else [])
